@@ -29,7 +29,9 @@ FLOORS = {'quick': {'evaluations': 6000, 'nontrivial': 400, 'counters': {'contra
           'thorough': {'evaluations': 200000, 'nontrivial': 20000, 'counters': {'contract_evals:set_cells_post': 30000}}}
 
 VALUES = [0, 1, -3, 7, 2.5, -0.25, 100, 'x', 'abc', 'Zz', True, False, dt.datetime(2024, 2, 29), dt.datetime(2023, 12, 31, 13, 30), 1000000, 42,
-          None, None]          # None: an override without a value clears the cell (the edited workbook has a blank cell there); '' cannot be stored in a file
+          dt.date(2024, 3, 15), dt.date(2023, 1, 31), 'FOREIGN-BLANK',
+          None, None]          # a date-only value is the date at its midnight (what the edited workbook holds); 'FOREIGN-BLANK' stands for the blank OBJECT another
+                               # executor of another class reported for an empty cell (models chained by hand: its value means "blank"); None: an override without a value clears the cell (the edited workbook has a blank cell there); '' cannot be stored in a file
 
 
 def make_workbook(rng):
@@ -56,7 +58,8 @@ def make_workbook(rng):
     s1['F4'] = '=' + spell(rng.choice(['F1', 'F2', 'F3']))
     pool += ['F1', 'F2', 'F3', 'F4']
     forms = ['{a}+{b}', 'SUM({a},{b})', 'IF({a}>{b},{a},{b})', '-{a}', '{a}%', 'MAX({a},{b},0)', '{a}&"|"&{b}', 'SUM(F1:F4)', 'IFERROR({a}/{b},0)', '{a}', '({a})',
-             'COUNT(F1:F4,{a})', 'INDEX(F1:F4,2)', 'ROUND({a}/3,2)', 'MIN(F1:F4)+{b}', '{a}={b}']
+             'COUNT(F1:F4,{a})', 'INDEX(F1:F4,2)', 'ROUND({a}/3,2)', 'MIN(F1:F4)+{b}', '{a}={b}', '{a}&"x"', 'COUNT({a},{b})', 'COUNTIFS(A1:A3,{a})', 'CONCATENATE({a},"q")',
+             'SUMIF(A1:A3,{a})', 'COUNT(A1:A4)&"/"&COUNTBLANK(A1:A4)']
     for i in range(5, 11):
         s1[f'F{i}'] = '=' + rng.choice(forms).format(a=spell(rng.choice(pool)), b=spell(rng.choice(pool)))
         pool.append(f'F{i}')
@@ -128,6 +131,9 @@ def plan(tier, seed):
     return [{'group': g, 'n': per, '_env': {'PYTHONHASHSEED': hs}} for g in range(groups) for hs in seeds]
 
 
+_FOREIGN = None
+
+
 def run_history(ctx, hid, spec, hist, hs):
     from excel2pycl import Executor
     r = ctx.r
@@ -137,13 +143,33 @@ def run_history(ctx, hid, spec, hist, hs):
         r.violation('translate', {'spec': spec}, book.whole.brief(), 'a loadable class')
         return
     ex = Executor().set_executed_class(class_object=book.cls)
+    # the blank object of ANOTHER generated class (a second translation of some other workbook), as a caller that chains two models gets it
+    global _FOREIGN
+    if _FOREIGN is None:
+        other = pipeline.Book(wbspec.spec(wbspec.sheet('O', {'A1': 1, 'B1': '=A1+1'})), ctx.workdir, name='other')
+        _FOREIGN = Executor().set_executed_class(class_object=other.cls).get_cell(pipeline.ncell(0, 9, 9)).value
+    import random as _random0
+    hrng = _random0.Random(repr((hid, 'containers')))
     edited = copy.deepcopy(spec)
     base_rows = {si: max(wbspec.rc(a)[0] for a in sh['cells']) for si, sh in enumerate(spec['sheets'])}
     written, twice, formula_overridden, beyond = set(), False, False, []
     held = {}          # (sheet, address, value repr, style) -> the Cell object the caller built for that write the first time
     for step, batch in enumerate(hist):
         cells = []
+        throwaway = []
         for (s, a, v, a1style) in batch:
+            if isinstance(v, str) and v == 'FOREIGN-BLANK':
+                cells.append(to_cell(titles, s, a, _FOREIGN, a1style))
+                r.count('overrides_with_a_foreign_blank_object')
+                if (s, a) in written:
+                    twice = True
+                written.add((s, a))
+                old = spec['sheets'][s]['cells'].get(a)
+                formula_overridden = formula_overridden or (isinstance(old, str) and old.startswith('='))
+                edited['sheets'][s]['cells'].pop(a, None)
+                if wbspec.rc(a)[0] > base_rows[s]:
+                    beyond.append((s, a))
+                continue
             # the caller keeps its Cell objects and submits the SAME object again when it writes the same value to the same cell later
             # (prepared history objects): the library must neither keep writing into them nor prefer an older object of that address
             hk = (s, a, repr(v), a1style)
@@ -156,6 +182,10 @@ def run_history(ctx, hid, spec, hist, hs):
                     c_old.value = v_old
                 cells.append(c_old)
                 r.count('cell_objects_resubmitted')
+            elif hrng.random() < 0.3:
+                # a Cell object the caller re-uses for something else right after the call (see below): not kept for resubmission
+                cells.append(to_cell(titles, s, a, v, a1style))
+                throwaway.append(cells[-1])
             else:
                 cells.append(to_cell(titles, s, a, v, a1style))
                 held[hk] = (cells[-1], v)
@@ -171,7 +201,38 @@ def run_history(ctx, hid, spec, hist, hs):
                 edited['sheets'][s]['cells'][a] = wbspec.enc(v)
             if wbspec.rc(a)[0] > base_rows[s]:
                 beyond.append((s, a))
-        o = pipeline.guarded(lambda: ex.set_cells(cells), 'set_cells')
+        # a batch that is REFUSED (its last address names no sheet) in between: whatever the library does with the cells before the bad
+        # one, sizes and values must stay consistent - a size that grew for a cell that was not written is a cell nobody supplied
+        if hrng.random() < 0.25:
+            from excel2pycl import Cell as _Cell
+            far_row = 40 + step
+            probe = _Cell(0, 7, far_row - 1, 777000 + step)
+            sizes_before = copy.deepcopy(ex.get_executed_class().get_sheets_size())
+            rej = pipeline.guarded(lambda: ex.set_cells([probe, _Cell('no such sheet', 'A', '1', 1)]), 'set_cells')
+            r.count('refused_batches')
+            sizes_after = ex.get_executed_class().get_sheets_size()
+            got = pipeline.guarded(lambda: ex.get_cell(_Cell(0, 7, far_row - 1)).value, 'evaluate')
+            applied = got.ok and got.value == 777000 + step and type(got.value) is int
+            grew = sizes_after[0]['last_row'] > sizes_before[0]['last_row']
+            if rej.ok or rej.kind != pipeline.LIB_EXC:
+                report(r, ID, None, {'history': hist, 'step': step, 'spec': spec, 'hashseed': hs, 'hid': hid, 'what': 'batch with an unknown sheet title'}, rej.brief(),
+                       'the cell exception of the library', monitor='refused-batch')
+            elif grew != applied:
+                report(r, ID, None, {'history': hist, 'step': step, 'spec': spec, 'hashseed': hs, 'hid': hid, 'what': 'refused batch: H%d then an unknown sheet' % far_row},
+                       {'size_grew': grew, 'cell_written': applied, 'sizes': [sizes_before, sizes_after]}, 'sizes and overrides agree after a refused batch', monitor='refused-batch')
+            if applied:
+                edited['sheets'][0]['cells']['H%d' % far_row] = 777000 + step
+                written.add((0, 'H%d' % far_row))
+        # the batch arrives in whatever container the caller has at hand: a list, a tuple, an iterator, a generator, a dict view
+        kind = hrng.choice(['list', 'list', 'tuple', 'iter', 'generator', 'map', 'dict-values'])
+        r.count('batch_container:' + kind)
+        container = {'list': lambda: cells, 'tuple': lambda: tuple(cells), 'iter': lambda: iter(cells), 'generator': lambda: (c_ for c_ in cells),
+                     'map': lambda: map(lambda c_: c_, cells), 'dict-values': lambda: {i_: c_ for i_, c_ in enumerate(cells)}.values()}[kind]()
+        o = pipeline.guarded(lambda: ex.set_cells(container), 'set_cells')
+        for c_ in throwaway:
+            # the caller goes on using its object for something else: that is not a set_cells call
+            c_.value = 'changed by the caller after the call'
+            r.count('cell_objects_changed_after_the_call')
         if not o.ok:
             report(r, ID, None, {'history': hist, 'step': step, 'spec': spec, 'hashseed': hs}, o.brief(), 'set_cells accepts the batch', monitor='set_cells')
             return
